@@ -1,9 +1,11 @@
 """C10 - clone() and == are congruences."""
 from .. import terms as T
-from ..harness import (Crate, State, Ref, ArrV, Struct, EnumV, OpaqueV, flat_leaves, Anchor, Unsupported, SymbolicLoop, same_value)
+from ..harness import (Crate, State, Ref, ArrV, Struct, EnumV, OpaqueV, flat_leaves, Anchor, Unsupported, SymbolicLoop, Diverged, same_value,
+                       symbolic_args)
 from .. import prims as P
 
-RULE = ("every Clone impl of a generator / core / buffer type, value-numbered on a symbolic value, must return a value identical to its "
+RULE = ("(R5) BlockRngCore::generate of every block core, on a symbolic core and a symbolic results buffer, leaves a core and results that "
+        "do not mention the buffer's old contents (the state a clone copies and == compares is the whole state); every Clone impl of a generator / core / buffer type, value-numbered on a symbolic value, must return a value identical to its "
         "argument in every leaf (R1); every PartialEq::eq, value-numbered on two symbolic values, must be the conjunction of the equalities of "
         "ALL leaves of the type, each compared whole, minus the frozen exception table (R2, R3)")
 EXPLANATION = ("Field coverage of clone and == is decided exactly; that futures are functions of the fields only is C19 (no hidden state). "
@@ -127,6 +129,44 @@ def check_impl(chk, crate, im):
         chk.ob("R2", "%s::eq|does not modify its arguments" % ident, pure, "", nontrivial=False)
 
 
+
+def check_generate_reads_no_buffer(chk, crate):
+    """R5: the whole state of a block core is in the core (that is what clone copies and == compares): BlockRngCore::generate,
+    value-numbered on a symbolic core and a symbolic results buffer, must leave a core and produce results that do not
+    depend on what the buffer held before (the buffer is output only)"""
+    n = 0
+    for im in crate.facts["impls"]:
+        if im.get("trait") != "rand_core::block::BlockRngCore" or "generate" not in im["methods"]:
+            continue
+        key = im["methods"]["generate"]
+        body = crate.body(key)
+        chk.body(key)
+        ident = (im.get("self_adt") or "?").split("::")[-1]
+        ev = crate.evaluator(max_steps=4000000)
+        st = State()
+        args, objs = symbolic_args(ev, st, body, prefix="arg")
+        if crate.name == "rand_hc":
+            from .c14 import hc_invariant_self
+            hc_invariant_self(ev, st, args, body)  # the class invariant counter = 0 mod 16 (C14 re-proves it at every exit)
+        try:
+            ev.call_body(st, key, args)
+        except (Unsupported, SymbolicLoop, Diverged) as e:
+            chk.ob("R5", "%s::generate|results buffer is output only" % ident, False, "not established: %s" % e, where=body["span"][0])
+            continue
+        n += 1
+        rname = body["names"].get("2") or "arg2"
+        dep = set()
+        for a in args:
+            for leaf in flat_leaves(st.objs[a.obj]) if isinstance(a, Ref) else []:
+                if isinstance(leaf, T.T):
+                    for nm in T.atoms_of(leaf):
+                        if str(nm).startswith(rname):
+                            dep.add(str(nm))
+        chk.ob("R5", "%s::generate|the new core and the results do not depend on the old contents of the results buffer" % ident, not dep,
+               "depends on %s" % sorted(dep)[:4], where=body["span"][0], sample={"core": ident, "buffer": rname})
+    return n
+
+
 def run(chk, tier):
     nclone = neq = 0
     for cname in CRATES:
@@ -149,5 +189,9 @@ def run(chk, tier):
             else:
                 neq += 1
         # every type with PartialEq also has Eq, and vice versa nothing else compares generators
+    ngen = 0
+    for cname in ("rand_hc", "rand_isaac"):
+        ngen += check_generate_reads_no_buffer(chk, Crate(cname))
+    chk.floor("R0", "block cores whose generate was analysed", ngen, 3)
     chk.floor("R0", "Clone impls", nclone, 20)  # vacuity guard (23 on the reference tree)
     chk.floor("R0", "PartialEq impls", neq, 17)  # vacuity guard (21 on the reference tree)
